@@ -400,6 +400,82 @@ impl Leg for Rerun {
     }
 }
 
+/// one CovComputer object used for several rounds: set_kmer_path / build_table / compute_coverages with a
+/// changing counting input (and the same one twice); every round's vectors against the model of that round
+#[derive(Clone, Debug, Serialize, Deserialize)]
+pub struct ReuseCase {
+    pub recs: Vec<Rec>,
+    /// counting input per round (None = the input itself); a round may also only recompute the vectors
+    pub rounds: Vec<(Option<Vec<Rec>>, bool)>,
+    pub k: usize,
+    pub bin_size: usize,
+    pub bin_count: usize,
+    pub norm: bool,
+    pub threads: usize,
+}
+
+pub fn check_reuse(c: &ReuseCase) -> Verdict {
+    let mut v = Verdict::new();
+    v.class("one-object-several-rounds");
+    v.nontrivial = c.rounds.len() >= 2 && !c.recs.is_empty();
+    let dir = crate::scratch_dir();
+    let input = io::write_input(dir.path(), "in", &c.recs, &Container::plain_fasta());
+    let outdir = dir.path().join("out");
+    std::fs::create_dir_all(&outdir).unwrap();
+    let od = io::path_str(&outdir);
+    let mut cov = CovComputer::new(io::path_str(&input), od.clone(), c.k, c.bin_size, c.bin_count);
+    cov.set_threads(c.threads);
+    cov.set_norm(c.norm);
+    cov.set_max_memory(6.0);
+    let mut counting: Vec<Rec> = c.recs.clone();
+    for (i, (alt, rebuild)) in c.rounds.iter().enumerate() {
+        let r = guarded(|| {
+            if *rebuild || i == 0 {
+                match alt {
+                    Some(a) => {
+                        let p = io::write_input(dir.path(), &format!("alt{}", i), a, &Container::plain_fasta());
+                        cov.set_kmer_path(io::path_str(&p));
+                    }
+                    None => cov.set_kmer_path(io::path_str(&input)),
+                }
+                cov.build_table().unwrap();
+            }
+            cov.compute_coverages();
+        });
+        if *rebuild || i == 0 {
+            counting = alt.clone().unwrap_or_else(|| c.recs.clone());
+        }
+        if let Err(p) = r {
+            v.fail(crate::engine::panic_sig(&p), format!("round {} panicked: {}", i, p));
+            return v;
+        }
+        let data = std::fs::read(outdir.join("kmers.vectors")).unwrap_or_default();
+        if let Err((s, m)) = check_vectors(&data, &c.recs, &counting, c.k, c.bin_size, c.bin_count, c.norm, " ") {
+            v.fail(format!("reuse-{}", s), format!("round {} of {} on one CovComputer ({}): {} [k={}, bin size {}, bin count {}]", i, c.rounds.len(), if *rebuild || i == 0 { "table rebuilt" } else { "vectors only" }, m, c.k, c.bin_size, c.bin_count));
+            return v;
+        }
+    }
+    v
+}
+
+pub struct Reuse;
+impl Leg for Reuse {
+    type Case = ReuseCase;
+    const NAME: &'static str = "one-object-several-rounds";
+    fn strategy(tier: Tier) -> BoxedStrategy<ReuseCase> {
+        (prop_oneof![3 => 1usize..=6, 1 => 7usize..=15], 1usize..=4, 2usize..=6, any::<bool>(), gen::threads_strategy())
+            .prop_flat_map(move |(k, bin_size, bin_count, norm, threads)| {
+                let p = RecParams { max_records: tier.pick(12, 40), scale: k, max_len: 120, degenerate_w: 1, bounds: [k, 0, 0], nuc_only: false };
+                let round = (prop_oneof![1 => Just(None), 3 => gen::records_related(p).prop_map(Some)], prop::bool::weighted(0.8));
+                (gen::records_related(p), proptest::collection::vec(round, 2..=4)).prop_map(move |(recs, rounds)| ReuseCase { recs, rounds, k, bin_size, bin_count, norm, threads })
+            })
+            .boxed()
+    }
+    fn check(c: &ReuseCase) -> Verdict {
+        check_reuse(c)
+    }
+}
+
 /// contention on new keys while the table is counted (adjacent duplicate records, many threads): bin size 1 and
 /// many bins, so that one lost occurrence moves its windows to another bin
 #[derive(Clone, Debug, Serialize, Deserialize)]
@@ -427,6 +503,8 @@ impl Leg for DupStress {
 }
 
 pub fn run(ctx: &mut Ctx) {
+    let n = ctx.share(ctx.tier.pick(600, 10_000));
+    ctx.run_leg::<Reuse>(n, true, 60);
     let n = ctx.share(ctx.tier.pick(240, 4_800));
     ctx.run_leg::<DupStress>(n, true, 20);
 
@@ -442,6 +520,7 @@ pub fn replay(leg: &str, case: &serde_json::Value) -> Option<Result<Verdict, Str
         "runs" => Some(crate::engine::replay_leg::<Runs>(case)),
         "rerun-in-place" => Some(crate::engine::replay_leg::<Rerun>(case)),
         "contention-new-keys" => Some(crate::engine::replay_leg::<DupStress>(case)),
+        "one-object-several-rounds" => Some(crate::engine::replay_leg::<Reuse>(case)),
         _ => None,
     }
 }
